@@ -90,8 +90,14 @@ func raceFound(tmp, bin string, part partCfg, tier string, seed uint64, o worker
 	if !strings.Contains(again.stderr, "midicatdrv") {
 		fatal2("race report of %s run %d involves no frame of the instrumented package (harness race?)\n%s", part.Key, rf.Run, tail(again.stderr, 4000))
 	}
+	fromSize := 0
+	rf, again, fromSize = shrinkDead(tmp, bin, part, rf, again, func(o workerOut) bool {
+		return o.code == 66 && strings.Contains(o.stderr, "WARNING: DATA RACE") && raceKey(o.stderr) == key
+	})
+	toSize := scenarioSize(tmp, bin, part, rf)
+	defer func() {}()
 	detail := "race detector report (replayed in a fresh process): " + core.Trunc(again.stderr[strings.Index(again.stderr, "WARNING: DATA RACE"):], 1800)
-	return []core.Found{{Violation: core.Violation{Clause: "data-race", Key: key, Detail: detail}, Seed: seed, Run: rf.Run, Scenario: rf.Scenario}}
+	return []core.Found{{Violation: core.Violation{Clause: "data-race", Key: key, Detail: detail}, Seed: seed, Run: rf.Run, Scenario: rf.Scenario, FromSize: fromSize, ToSize: toSize}}
 }
 
 func replayRace(tmp, bin string, part partCfg, rf core.ReplayFile, abs string) int {
@@ -127,4 +133,54 @@ func crashFound(tmp, bin string, part partCfg, tier string, seed uint64, o worke
 		line = line[:j]
 	}
 	return []core.Found{{Violation: core.Violation{Clause: "crash", Key: core.Trunc(line, 60), Detail: "the process crashed in a library goroutine (replayed in a fresh process): " + core.Trunc(msg, 1500)}, Seed: seed, Run: rf.Run, Scenario: rf.Scenario}}
+}
+
+// candidates asks a worker for the first-level shrink candidates of a scenario.
+func candidates(tmp, bin string, part partCfg, rf core.ReplayFile) (map[int64]json.RawMessage, int) {
+	path := filepath.Join(tmp, fmt.Sprintf("cands-%d.json", time.Now().UnixNano()))
+	b, _ := json.Marshal(rf)
+	os.WriteFile(path, b, 0o644)
+	o := runWorker(tmp, bin, core.Job{Property: part.Key, Tier: "quick", Mode: "cands", Replay: path, Worker: 79}, &propCfg{Pkg: part.Pkg}, 5*time.Minute)
+	if o.res == nil {
+		return nil, 0
+	}
+	return o.res.Scenarios, o.res.Sizes[-1]
+}
+
+func scenarioSize(tmp, bin string, part partCfg, rf core.ReplayFile) int {
+	_, n := candidates(tmp, bin, part, rf)
+	return n
+}
+
+// shrinkDead minimises a scenario whose failure kills the process (so the in-process
+// shrinker cannot be used): each candidate is executed in a fresh process; bounded budget.
+func shrinkDead(tmp, bin string, part partCfg, rf core.ReplayFile, last workerOut, still func(workerOut) bool) (core.ReplayFile, workerOut, int) {
+	deadline := time.Now().Add(90 * time.Second)
+	tries := 0
+	from := 0
+	for time.Now().Before(deadline) && tries < 80 {
+		cands, size := candidates(tmp, bin, part, rf)
+		if from == 0 {
+			from = size
+		}
+		progressed := false
+		for i := int64(0); i < int64(len(cands)) && time.Now().Before(deadline) && tries < 80; i++ {
+			c, ok := cands[i]
+			if !ok {
+				continue
+			}
+			tries++
+			crf := rf
+			crf.Scenario = c
+			o := rerun(tmp, bin, part, crf)
+			if still(o) {
+				rf, last, progressed = crf, o, true
+				break
+			}
+		}
+		if !progressed {
+			break
+		}
+	}
+	return rf, last, from
 }
